@@ -35,6 +35,15 @@ LATT = [None, (4.0,), (4.0, 6.0), (3.0, 4.0, 5.0), (4.1, 5.2, 6.3, 100.0), (3.0,
 TAGS = ["a", "refl one", "t-2", "é", ""]
 
 
+def rev_keys(x):
+    """the same JSON value with the members of every object in the opposite order"""
+    if isinstance(x, dict):
+        return {k: rev_keys(x[k]) for k in reversed(list(x))}
+    if isinstance(x, list):
+        return [rev_keys(v) for v in x]
+    return x
+
+
 def rand_pos(rng):
     from diffcalc.hkl.geometry import Position
     k = rng.random()
@@ -383,6 +392,9 @@ def oracle(ctx, widen=1):
                     with quiet():
                         routes.append(("fromdict", HklCalculation.fromdict(d)))
                         routes.append(("json+fromdict", HklCalculation.fromdict(json.loads(text))))
+                        # a JSON object is an unordered collection: a store that sorts or otherwise re-orders the keys hands back the same dictionary
+                        routes.append(("json(sort_keys)+fromdict", HklCalculation.fromdict(json.loads(json.dumps(d, sort_keys=True)))))
+                        routes.append(("json(keys reversed)+fromdict", HklCalculation.fromdict(rev_keys(json.loads(text)))))
                         routes.append(("pickle", pickle.loads(pickle.dumps(hc))))
                         # the same file name is used again and again, as a session file is: absolute, relative to the working directory, or not normalised
                         fn = [os.path.join(tmpdir, "ub.pkl"), "ub.pkl", os.path.join(".", "sub", "..", "ub2.pkl")][i % 3]
